@@ -204,16 +204,36 @@ countnz(const int_t n, int_t *xprune, int_t *nnzL, int_t *nnzU, GlobalLU_t *Glu)
 
 
 
+/* Position of a supernode's subscripts in lsub[], used by fixupL(). */
+typedef struct {
+    int_t pos;
+    int_t snode;
+} lsub_pos_t;
+
+static int cmp_lsub_pos(const void *a, const void *b)
+{
+    int_t pa = ((const lsub_pos_t *) a)->pos, pb = ((const lsub_pos_t *) b)->pos;
+    return (pa > pb) - (pa < pb);
+}
+
 /*
  * Fix up the data storage lsub for L-subscripts. It reclaims the
  * storage for the adjancency lists of the pruned graph, and applies
  * row permuation to the row subscripts of matrix $L$.
+ *
+ * The supernode number and the subscript storage of a supernode are
+ * handed out in two separate critical sections (NewNsuper(), Glu_alloc()),
+ * so with several threads the storage order in lsub[] need not follow the
+ * supernode numbering. The in-place compaction must therefore visit the
+ * supernodes in storage order, otherwise it overwrites subscripts that
+ * have not been moved yet.
  */
 void
 fixupL(const int_t n, const int_t *perm_r, GlobalLU_t *Glu)
 {
-    register int_t nsuper, fsupc, nextl, i, j, jstrt;
+    register int_t nsuper, fsupc, nextl, i, j, jstrt, k;
     register int_t *xsup, *xsup_end, *lsub, *xlsub, *xlsub_end;
+    lsub_pos_t *order;
 
     if ( n <= 1 ) return;
 
@@ -225,10 +245,21 @@ fixupL(const int_t n, const int_t *perm_r, GlobalLU_t *Glu)
     nsuper    = Glu->supno[n];
     nextl     = 0;
     
-    /* 
-     * For each supernode ...
-     */
+    /* Sort the supernodes by the position of their subscripts in lsub[]. */
+    if ( !(order = (lsub_pos_t *)
+	   SUPERLU_MALLOC( (size_t) (nsuper+1) * sizeof(lsub_pos_t) )) )
+	SUPERLU_ABORT("SUPERLU_MALLOC fails for order[] in fixupL()");
     for (i = 0; i <= nsuper; i++) {
+	order[i].pos = xlsub[xsup[i]];
+	order[i].snode = i;
+    }
+    qsort(order, nsuper+1, sizeof(lsub_pos_t), cmp_lsub_pos);
+
+    /* 
+     * For each supernode, in storage order ...
+     */
+    for (k = 0; k <= nsuper; k++) {
+	i = order[k].snode;
 	fsupc = xsup[i];
 	jstrt = xlsub[fsupc];
 	xlsub[fsupc] = nextl;
@@ -239,6 +270,7 @@ fixupL(const int_t n, const int_t *perm_r, GlobalLU_t *Glu)
 	xlsub_end[fsupc] = nextl;
     }
     xlsub[n] = nextl;
+    SUPERLU_FREE(order);
 
 #if ( PRNTlevel==1 )
     printf(".. # edges in supernodal graph of L = " IFMT "\n", nextl);
